@@ -459,7 +459,7 @@ class Histories(Stream):
         ]
 
     def cases(self, rng, tier):
-        n = int(os.environ.get("C20_N", 0)) or (260 if tier == "quick" else 6000)
+        n = int(os.environ.get("C20_N", 0)) or (700 if tier == "quick" else 6000)
         maxlen = 14 if tier == "quick" else 30
         for i in range(n):
             sub = random.Random(rng.getrandbits(48))
